@@ -1030,6 +1030,18 @@ class Engine(OpsMixin):
                     if isinstance(obj, list):
                         idx = self.conc_index(idx, len(obj))
                     elif isinstance(obj, dict):
+                        ent = self.symdicts.get(id(obj))
+                        done = False
+                        if ent is not None:
+                            # association list of symbolic-key bindings: the most recent binding of an equal key
+                            for i in range(len(ent[1]) - 1, -1, -1):
+                                c = self.cmp("Eq", idx, ent[1][i][0])
+                                if c is not False and self.truth(c):
+                                    del ent[1][i]
+                                    done = True
+                                    break
+                        if done:
+                            continue
                         for k in list(obj):
                             if self.truth(self.cmp("Eq", idx, k)):
                                 idx = k
